@@ -83,7 +83,7 @@ impl ECDSA {
             SigningHash::Sha256d => **rfc6979_generate_k::<_, Sha256d>(&priv_scalar, &k_digest, &added_entropy),
         };
 
-        let msg_scalar = Scalar::from_uint_reduced(U256::from_le_slice(digest));
+        let msg_scalar = Scalar::from_uint_reduced(U256::from_be_slice(digest));
         priv_scalar.try_sign_prehashed(k, msg_scalar)
     }
 
